@@ -382,6 +382,21 @@ impl Bench {
         self.keep = false;
     }
 
+    /// history mode, after a mismatch: take over what the instruction really wrote at the addresses its reference
+    /// outcomes write (a flag-only divergence leaves correct memory writes behind); false when memory differs elsewhere
+    pub fn resync(&mut self, outs: &[Outcome]) -> bool {
+        for o in outs {
+            for (a, _) in &o.memw {
+                let i = *a as usize;
+                if self.shadow[i] != self.vm.mem[i] {
+                    self.shadow[i] = self.vm.mem[i];
+                    self.dirty.push(*a);
+                }
+            }
+        }
+        self.vm.mem[..] == self.shadow[..]
+    }
+
     pub fn restore_mem(&mut self) {
         if self.vm.mem[..] != self.shadow[..] {
             self.vm.mem.copy_from_slice(&self.shadow);
